@@ -49,7 +49,9 @@ DIMS = [
     ('indent', [('yes', ' indent="yes"', None), ('no', ' indent="no"', None)]),
     ('amount', [('0', ' xalan:indent-amount="0"', None), ('3', ' xalan:indent-amount="3"', None), ('api2', '', 'o:indent=2')]),
     ('encoding', [('UTF-16', ' encoding="UTF-16"', None), ('ISO-8859-1', ' encoding="ISO-8859-1"', None), ('US-ASCII', ' encoding="US-ASCII"', None),
-                  ('apiLatin1', '', 'o:encoding=ISO-8859-1')]),
+                  ('apiLatin1', '', 'o:encoding=ISO-8859-1'),
+                  # four bytes per unit: the stream needs several transcoder passes per chunk (written little endian without BOM)
+                  ('UTF-32', ' encoding="UTF-32"', None)]),
     ('omit', [('yes', ' omit-xml-declaration="yes"', None)]),
     ('standalone', [('yes', ' standalone="yes"', None), ('no', ' standalone="no"', None)]),
     ('doctype', [('sys', ' doctype-system="d.dtd"', None), ('pub', ' doctype-system="d.dtd" doctype-public="-//X//Y"', None)]),
@@ -88,6 +90,11 @@ def parse_bytes(b):
     """bytes -> canonical tree; version 1.1 declarations are rewritten for expat; returns (canon, decl)"""
     m = re.match(rb'^(\xff\xfe|\xfe\xff)?', b)
     head = b[:200]
+    if head.startswith(b'<\x00\x00\x00') or head.startswith(b'\xff\xfe\x00\x00'):
+        # UTF-32 (little endian): the parsers at hand do not read it: decode here, hand the text over as UTF-8
+        txt = b.decode('utf-32-le').lstrip('\ufeff')
+        txt = txt.replace('version="1.1"', 'version="1.0"', 1).replace('encoding="UTF-32"', 'encoding="UTF-8"', 1)
+        return R.parse_xml(txt.encode('utf-8'))
     is16 = head.startswith(b'\xff\xfe') or head.startswith(b'\xfe\xff') or b'\x00' in head[:4]
     if is16:
         txt = b.decode('utf-16')
@@ -293,7 +300,7 @@ def shard_main(shard, nshards, tier):
             raw = r[2].encode('utf-8', 'surrogateescape')
             enc = [v[0] for d, v in vec if d == 'encoding']
             try:
-                txt = raw.decode('utf-16') if 'UTF-16' in enc else raw.decode('latin-1' if ('ISO-8859-1' in enc or 'apiLatin1' in enc) else ('ascii' if 'US-ASCII' in enc else 'utf-8'))
+                txt = raw.decode('utf-32-le').lstrip('\ufeff') if 'UTF-32' in enc else raw.decode('utf-16') if 'UTF-16' in enc else raw.decode('latin-1' if ('ISO-8859-1' in enc or 'apiLatin1' in enc) else ('ascii' if 'US-ASCII' in enc else 'utf-8'))
             except Exception as e:
                 viols.append(('html|undecodable|%s' % lab, {'error': str(e)}))
                 continue
